@@ -328,9 +328,9 @@ NX_FN = ('fun c => match c with (G, go, gi, Go, phi) => [agree_nx_adapt %d G go;
          'fresh_opt %d go; fresh_nx %d Go; holds_nx_rt G Go phi] end' % (N0, N0, N0, N0)).replace('%d' % N0, 'NF')
 
 
-def nx_pipeline(desc, tamper=False):
+def nx_pipeline(desc, tamper=False, ad=None):
     """G -> adapt -> restore with BaseNetworkxAdapter; returns the Coq case and facts"""
-    ad = BaseNetworkxAdapter()
+    ad = ad or BaseNetworkxAdapter()
     G, es = build_nx(desc)
     ids = Ids()
     number_nx(G, ids)
@@ -359,9 +359,9 @@ OPT_FN = ('fun c => match c with (g, Go, Gi, go, psi) => [agree_nx_restore %d g 
           'fresh_nx %d Go; fresh_opt %d go; holds_opt_rt g go psi] end' % (N0, N0, N0, N0)).replace('%d' % N0, 'NF')
 
 
-def opt_pipeline(desc):
+def opt_pipeline(desc, ad=None):
     """g -> restore -> adapt with BaseNetworkxAdapter"""
-    ad = BaseNetworkxAdapter()
+    ad = ad or BaseNetworkxAdapter()
     g = build_opt(desc)
     ids = Ids()
     number_opt(g, ids)
@@ -384,8 +384,8 @@ DUMB_TY = 'optg * nxg onode * optg'
 DUMB_FN = 'fun c => match c with (g, Go, go) => [agree_opt_dumb NF g Go go; holds_opt_dumb g go] end'
 
 
-def dumb_pipeline(desc):
-    ad = DumbNetworkxAdapter()
+def dumb_pipeline(desc, ad=None):
+    ad = ad or DumbNetworkxAdapter()
     g = build_opt(desc)
     ids = Ids()
     number_opt(g, ids)
@@ -756,6 +756,73 @@ def run_registry(desc, tamper=False):
             {'native': native, 'raised': raised})
 
 
+# ---- one adapter instance re-used after conversions that failed part-way
+class Bomb:
+    """an attribute value that cannot be deep-copied"""
+
+    def __deepcopy__(self, memo):
+        raise RuntimeError('cannot be copied')
+
+
+def poison(ad, kind, r_nodes):
+    """make one adapt() / restore() call on `ad` fail part-way; the exception is caught (returns its name)"""
+    n = max(2, r_nodes)
+    try:
+        if kind == 'adapt_bomb':          # the LAST node cannot be converted: the first ones already were
+            G = nx.DiGraph()
+            for i in range(n):
+                G.add_node('p%d' % i, name='poison', w=[i])
+            G.nodes['p%d' % (n - 1)]['w'] = Bomb()
+            for i in range(n - 1):
+                G.add_edge('p%d' % i, 'p%d' % (i + 1))
+            ad.adapt(G)
+        elif kind == 'adapt_missing_data':   # DumbNetworkxAdapter: node data without the 'data' key
+            G = nx.DiGraph()
+            for i in range(n):
+                G.add_node('p%d' % i, data=OptNode('poison'))
+            del G.nodes['p%d' % (n - 1)]['data']
+            ad.adapt(G)
+        elif kind == 'restore_bomb':
+            nds = [OptNode({'name': 'poison', 'params': {'w': [i]}}) for i in range(n)]
+            nds[-1].content['params']['w'] = Bomb()
+            for a, b in zip(nds, nds[1:]):
+                b.nodes_from = [a]
+            ad.restore(OptGraph(nds))
+        elif kind == 'restore_params_none':
+            nds = [OptNode({'name': 'poison', 'params': {}}) for i in range(n)]
+            nds[-1].content['params'] = None
+            ad.restore(OptGraph(nds))
+        elif kind == 'adapt_func_raises':    # a wrapped function that raises inside the wrapper
+            def boom(graph):
+                raise ValueError('domain function failed')
+            ad.adapt_func(boom)(OptGraph(OptNode('poison')))
+    except AssertionError:
+        raise
+    except Exception as ex:
+        return type(ex).__name__
+    return None
+
+
+def gen_reuse_desc(r):
+    dumb = r.random() < 0.25
+    kinds = ['adapt_missing_data', 'adapt_func_raises'] if dumb else \
+        ['adapt_bomb', 'adapt_bomb', 'restore_bomb', 'restore_params_none', 'adapt_func_raises']
+    return {'dumb': dumb, 'poison': [[r.choice(kinds), r.randint(2, 4)] for _ in range(r.choice([1, 1, 2]))],
+            'nx': gen_nx_desc(r, 6, odd=False), 'opt': gen_opt_desc(r, 6, odd=False), 'opt_first': r.random() < 0.5}
+
+
+def reuse_pipeline(desc):
+    """the same adapter instance after failed conversions: ordinary round trips must be those of a fresh one"""
+    ad = DumbNetworkxAdapter() if desc['dumb'] else BaseNetworkxAdapter()
+    raised = [poison(ad, kind, n) for kind, n in desc['poison']]
+    if desc['dumb']:
+        return [('dumb', dumb_pipeline(desc['opt'], ad=ad))], raised
+    runs = [('nx', nx_pipeline(desc['nx'], ad=ad)), ('opt', opt_pipeline(desc['opt'], ad=ad))]
+    if desc['opt_first']:
+        runs.reverse()
+    return runs, raised
+
+
 # ---- sessions on ONE adapter instance: adapt_func / restore_func interleaved with register / unregister
 class RecHolder:
     def __init__(self, rec):
@@ -977,7 +1044,9 @@ def run(ctx):
                 'with graph / individual / sequence / tuple / None / scalar / empty / string arguments (positional and '
                 'keyword) and results; register / unregister histories over partial / bound-method nestings; sessions on ONE '
                 'adapter instance interleaving adapt_func / restore_func (outcome called with a graph) with register / '
-                'unregister on re-used callable objects.  distinct = '
+                'unregister on re-used callable objects and on the closures handed out by earlier steps (nesting up to 4); '
+                'adapter instances re-used for ordinary round trips after adapt / restore / wrapped calls that raised '
+                'part-way.  distinct = '
                 'distinct generated description; non-trivial = at least 2 nodes and 1 edge (conversions), at least one '
                 'graph-bearing argument or result (calls), a wrapped query or a non-empty history (registry)')
     ctx.trusted_extra = [
@@ -1161,6 +1230,30 @@ def run(ctx):
                                           'as is, or an unregistered one is'], 1)
         if facts['raised']:
             ctx.violate('registry', desc, 'registry operation raised ' + facts['raised'])
+    # ---- adapter instances re-used after a conversion that failed part-way
+    batches = {'nx': ([], [], NX_FN, NX_TY, NX_NAMES, 5, 2), 'opt': ([], [], OPT_FN, OPT_TY, OPT_NAMES, 5, 2),
+               'dumb': ([], [], DUMB_FN, DUMB_TY, ['DumbNetworkxAdapter out-and-back differs from the model',
+                                                   'DumbNetworkxAdapter out-and-back does not preserve the graph'], 2, 1)}
+    for i in range(ctx.budget(150, 3000)):
+        desc = gen_reuse_desc(r)
+        out = _safe(ctx, 'reuse', desc, reuse_pipeline)
+        if out is None:
+            continue
+        runs, raised = out
+        if None in raised:
+            ctx.error('reuse', 'a poisoning call did not raise: %r' % (desc['poison'],))
+        for which, (case, facts) in runs:
+            batches[which][0].append(case)
+            batches[which][1].append((desc, which))
+    for which, (cases, metas, fn, ty, names, k, vf) in batches.items():
+        res = ctx.coq_cases('reuse', REQ, fn, cases, k, case_ty=ty, shard=_shard(len(cases), 150), preamble=PRE)
+        for (desc, w), rr in zip(metas, res):
+            ctx.count('reuse', key=(desc, w), nontrivial=True, adapter='dumb' if desc['dumb'] else 'base',
+                      poison='+'.join(sorted(set(kd for kd, _ in desc['poison']))))
+            _flag(ctx, 'reuse', desc, rr, ['after a failed conversion on the same adapter instance: ' + nm for nm in names], vf)
+    ctx.sample({'group': 'reuse', 'input': {'poison': [['adapt_bomb', 3]], 'then': 'ordinary nx and opt round trips on the same '
+                                                                                 'BaseNetworkxAdapter instance'}})
+
     # ---- sessions on one adapter instance
     cases, metas = [], []
     for i in range(ctx.budget(250, 5000)):
@@ -1196,7 +1289,7 @@ def _depth(t):
     return n
 
 
-def replay(ctx, payload):
+def _replay(ctx, payload):
     v = payload.get('violation') or payload.get('first_disagreement') or payload
     if not isinstance(v, dict) or not v.get('case'):
         return
@@ -1231,6 +1324,14 @@ def replay(ctx, payload):
         for rr in res:
             _flag(ctx, 'replay', desc, rr, ['DirectAdapter differs from the model',
                                             'DirectAdapter loses content / classes or shares objects'], 1)
+    elif group == 'reuse':
+        runs, raised = reuse_pipeline(desc)
+        table = {'nx': (NX_FN, NX_TY, NX_NAMES, 5, 2), 'opt': (OPT_FN, OPT_TY, OPT_NAMES, 5, 2),
+                 'dumb': (DUMB_FN, DUMB_TY, ['dumb adapter differs from the model', 'dumb adapter does not preserve the graph'], 2, 1)}
+        for which, (case, facts) in runs:
+            fn, ty, names, k, vf = table[which]
+            res = ctx.coq_cases('replay', REQ, fn, [case], k, case_ty=ty, preamble=PRE)
+            _flag(ctx, 'replay', desc, res[0], ['after a failed conversion on the same adapter instance: ' + nm for nm in names], vf)
     elif group == 'sessions':
         out = run_session(desc)
         res = ctx.coq_cases('replay', REQ, SESSION_FN, [c for c, _ in out], 2, case_ty=SESSION_TY, preamble=PRE)
@@ -1244,3 +1345,16 @@ def replay(ctx, payload):
     else:
         return
     ctx.count('replay', key=desc, nontrivial=True)
+
+
+def replay(ctx, payload):
+    v = payload.get('violation') or payload.get('first_disagreement') or payload
+    try:
+        _replay(ctx, payload)
+    except (AssertionError, ImportError):
+        raise
+    except Exception as ex:
+        if ex.__class__.__name__ == 'CoqEvalError':
+            raise
+        ctx.violate('replay', v.get('case') if isinstance(v, dict) else None,
+                    'conversion raised %s: %s' % (type(ex).__name__, ex))
